@@ -10,6 +10,8 @@ CONSTANTS
   FileLayer = FALSE
   SilentRelease = FALSE
   ForgetsHandle = FALSE
+  MaxMigrate = 2
+  RegisterOnce = FALSE
 SPECIFICATION FairSpec
 INVARIANTS Safe
 PROPERTIES Live NoLeakLive
